@@ -41,6 +41,15 @@ pub mod p8 {
         pub b: [u8; 5],
     }
 
+    /// the same fields under a discriminant that contains zero bytes (an initialised account is not "all zero")
+    #[zero_copy(pod)]
+    #[derive(Default, Debug, Eq, PartialEq, ProgramAccount)]
+    #[program_account(skip_idl, program = P8, discriminant = [7, 0, 0, 0, 0, 0, 0, 0], seeds = super::VSeeds)]
+    pub struct FixZ {
+        pub a: u64,
+        pub b: [u8; 5],
+    }
+
     #[unsized_type(program_account, skip_idl, program = P8, discriminant = [9, 8, 7, 6, 5, 4, 3, 2], seeds = super::VSeeds)]
     pub struct Uns {
         pub tag: u16,
@@ -209,6 +218,7 @@ fn arr<const N: usize>(v: &[u8], o: usize) -> [u8; N] {
 }
 
 run_kind!(run_fix, Account<Fix>, |iv: &Vec<u8>| Fix { a: u64::from_le_bytes(arr::<8>(iv, 0)), b: arr::<5>(iv, 8) }, |_a: &Account<Fix>| None::<Vec<u8>>);
+run_kind!(run_fixz, Account<FixZ>, |iv: &Vec<u8>| FixZ { a: u64::from_le_bytes(arr::<8>(iv, 0)), b: arr::<5>(iv, 8) }, |_a: &Account<FixZ>| None::<Vec<u8>>);
 run_kind!(run_uns, Account<Uns>, |_iv: &Vec<u8>| star_frame::unsize::init::DefaultInit, |_a: &Account<Uns>| None::<Vec<u8>>);
 run_kind!(run_bo, BorshAccount<Bo>, |iv: &Vec<u8>| Bo { v: iv.clone() }, |a: &BorshAccount<Bo>| guarded(|| star_frame::borsh::to_vec(&**a).unwrap()).ok());
 run_kind!(run_fix1, Account<Fix1>, |iv: &Vec<u8>| Fix1 { a: arr::<3>(iv, 0) }, |_a: &Account<Fix1>| None::<Vec<u8>>);
@@ -324,6 +334,7 @@ fn run(c: &[i128]) -> Option<Vec<i128>> {
         0 => run_fix(&env, &mut ctx),
         1 => run_uns(&env, &mut ctx),
         2 => run_bo(&env, &mut ctx),
+        4 => run_fixz(&env, &mut ctx),
         _ => run_fix1(&env, &mut ctx),
     });
     set_cpi_handler(None);
